@@ -259,7 +259,8 @@ Print Assumptions C16_lookup_array.
 (* LOOKUP, vector form: LOOKUP(v, T, rr) = INDEX(rr, MATCH(v, search vector, 1))
    for a result vector rr that is a column of >= 2 cells or a row, at least as
    long as the search vector (shorter: known finding
-   C16-lookup-short-result-range, IndexError instead of #REF!) *)
+   C16-lookup-short-result-range, IndexError instead of #REF!; witness in
+   Refuted/C16_lookup_short.v) *)
 Theorem C16_lookup_vector_col : forall v w rows rr, rect w rows -> rows <> [] -> 1 <= w ->
   rect 1 rr -> 2 <= zlen rr -> search_len w rows <= zlen rr ->
   lookup.f_lookup v (VTuple rows) (VTuple rr)
@@ -274,6 +275,18 @@ Theorem C16_lookup_vector_row : forall v w rows cells, rect w rows -> rows <> []
      if is_int m then index_ (VTuple [VTuple cells]) m VNone else Ok m).
 Proof. exact lookup_vector_row. Qed.
 Print Assumptions C16_lookup_vector_row.
+
+(* MATCH(v, range, mt) itself (the regenerated f_match): a single row is
+   searched as it is, any other range through its first column — the theorems
+   on match_ above are theorems on MATCH *)
+Theorem C16_match_range_row : forall v cells mt,
+  lookup.f_match v (VTuple [VTuple cells]) mt = match_ v (VTuple cells) mt.
+Proof. exact match_shape_row. Qed.
+Print Assumptions C16_match_range_row.
+Theorem C16_match_range_column : forall v w rows mt, rect w rows -> 1 <= w -> zlen rows <> 1 ->
+  lookup.f_match v (VTuple rows) mt = match_ v (VTuple (col_of 0 rows)) mt.
+Proof. exact match_shape_col. Qed.
+Print Assumptions C16_match_range_column.
 
 (* C16_match0_wildcard.  The matcher of the model (the regular expression that
    build_wildcard_re compiles) is the declarative ?/* relation Glob of C15 on
